@@ -306,6 +306,11 @@ func run(e *core.Env) {
 	if err != nil {
 		e.Fail("empty-start-fails", "start on an empty disk failed: %v", err)
 	}
+	// What the very first start leaves on the disk and in memory: in a quarter of the runs the
+	// crashes hit the first save ever (no state file to replace yet).
+	firstImage := simos.Current().Clone()
+	firstSnap := snap(s0)
+	firstSave := tp.Chance(1, 4)
 	var pool []netip.Addr
 	var domains []string
 	sizeClass := tp.Pick(4, 3, 2, 1)
@@ -331,6 +336,11 @@ func run(e *core.Env) {
 		e.Fail("roundtrip-lossy", "saved and reloaded state differ: %s", d)
 	}
 	e.Case(0x18, uint64(len(mem0.routers)), uint64(len(mem0.mappings)), 0xffff)
+
+	if firstSave {
+		image0, loaded0 = firstImage, firstSnap
+		e.Probe("first_save_ever")
+	}
 
 	// ---- S1: mutate in memory ----
 	n1 := 1 + tp.Intn(6)
